@@ -355,7 +355,7 @@ pub fn run(ctx: &Ctx) {
     for i in a..b {
       let d = civ.date(days[i]);
       loc.states += 1;
-      loc.transitions += 3 + 24;
+      loc.transitions += 3 + 48;
       let r = guard(|| {
         let sd = mk(d);
         let sc = sd.get_sixty_cycle_day();
@@ -363,7 +363,7 @@ pub fn run(ctx: &Ctx) {
         let direct = (God::get_day_gods(sc.get_month(), sc.get_sixty_cycle()), Taboo::get_day_recommends(sc.get_month(), sc.get_sixty_cycle()), Taboo::get_day_avoids(sc.get_month(), sc.get_sixty_cycle()));
         let same = sc.get_gods() == direct.0 && ld.get_gods() == direct.0 && sc.get_recommends() == direct.1 && ld.get_recommends() == direct.1 && sc.get_avoids() == direct.2 && ld.get_avoids() == direct.2;
         let mut hours_ok = true;
-        for h in (0..24).step_by(2) {
+        for h in 0..24 {
           let st = mk_time(&civ, days[i] as i64 * 86400 + h * 3600 + 60);
           let lh = st.get_lunar_hour();
           let sh = st.get_sixty_cycle_hour();
@@ -383,7 +383,7 @@ pub fn run(ctx: &Ctx) {
       }
     }
   });
-  ctx.subspace("accessors of SixtyCycleDay / LunarDay / LunarHour / SixtyCycleHour on 3 x 120 consecutive days x 12 double-hours agree with the direct table lookups", done, days.len() as u64);
+  ctx.subspace("accessors of SixtyCycleDay / LunarDay / LunarHour / SixtyCycleHour on 3 x 120 consecutive days x all 24 clock hours (incl. 23:00, where the day pillar rolls) agree with the direct table lookups", done, days.len() as u64);
   let done = par_chunks(ctx, 0, 10000, 100, |a, b, loc| {
     for y in a..b {
       check_steed(ctx, &civ, y as isize, loc);
